@@ -59,7 +59,7 @@ Proof.
 Qed.
 
 Theorem run_delivers_range c d o ci :
-  d_files d <> [] -> new_index (d_index d) (o_range o) = Ok ci ->
+  range_ok (o_range o) = true -> d_files d <> [] -> new_index (d_index d) (o_range o) = Ok ci ->
   let s := o_start (o_range o) in
   s <= ci_max ci + 1 ->
   (forall h, s <= h <= ci_max ci -> exists b, get_block c d (o_verify o) ci h = Some (inl b)) ->
@@ -67,7 +67,7 @@ Theorem run_delivers_range c d o ci :
     map fst (r_delivered r) = Drive.heights s (N.to_nat (ci_max ci + 1 - s)) /\
     (forall h b, In (h, b) (r_delivered r) -> get_block c d (o_verify o) ci h = Some (inl b)).
 Proof.
-  intros Hfiles Hci s Hs Hget. unfold run_case. destruct (d_files d) as [|f0 fr] eqn:Ef; [contradiction|]. rewrite Hci. cbv beta iota.
+  intros Hrange Hfiles Hci s Hs Hget. unfold run_case. rewrite Hrange. cbn [negb]. destruct (d_files d) as [|f0 fr] eqn:Ef; [contradiction|]. rewrite Hci. cbv beta iota.
   set (get := get_block c d (o_verify o) ci).
   set (blk := fun h => match get h with Some (inl b) => b | _ => dflt_block end).
   assert (Hblk : forall h, s <= h <= ci_max ci -> get h = Some (inl (blk h))).
